@@ -490,7 +490,7 @@ def run_pair(cfg):
         p["expected"] = exp
         return p
     return common.explore(cfg, harness, twin=tw, on_leaf=on_leaf, witness_fn=witness,
-                          witness_stride=cfg.get("wstride", 0), deadline_s=cfg.get("deadline_s"),
+                          witness_stride=cfg.get("wstride", 0), deadline_s=cfg.get("deadline_s", 5400),
                           seed=cfg.get("seed", 0))
 
 
@@ -513,7 +513,10 @@ def run_config(cfg):
             oblig_some_mst(eng, cfg, out, info)
         elif prop == "C02":
             oblig_c02(eng, cfg, out, info, after_fit=not cfg.get("only_protos"))
-            oblig_some_mst(eng, cfg, out, info)
+            if cfg["n"] <= 4:
+                # Or over all spanning trees (16 at n = 4, 125 at n = 5): at n = 5 the tree-shaped clauses above
+                # (cycle property of the recorded tree, boundary endpoints, Kruskal uniqueness) carry the claim
+                oblig_some_mst(eng, cfg, out, info)
         elif prop == "C03":
             oblig_c03(eng, cfg, out, info)
         elif prop == "C04":
@@ -530,4 +533,4 @@ def run_config(cfg):
 
     return common.explore(cfg, harness, twin=tw, on_leaf=on_leaf, witness_fn=witness,
                           witness_stride=cfg.get("wstride", 0), max_paths=cfg.get("max_paths"),
-                          deadline_s=cfg.get("deadline_s"), seed=cfg.get("seed", 0))
+                          deadline_s=cfg.get("deadline_s", 5400), seed=cfg.get("seed", 0))
